@@ -162,6 +162,9 @@ func runReplay1(verif, pkg, test string, env ...string) (bool, string) {
 		return false, txt
 	}
 	failed := err != nil && (strings.Contains(txt, "--- FAIL") || strings.Contains(txt, "panic:") || strings.Contains(txt, "DATA RACE"))
+	if err != nil && strings.Contains(txt, "[build failed]") {
+		txt = "REPLAY DID NOT BUILD (not a replay result)\n" + txt
+	}
 	return failed, txt
 }
 
